@@ -43,7 +43,19 @@ const (
 )
 
 func c34Witnesses() []c34Witness {
+	xr := func(s, e int32, v int32) *descriptorpb.DescriptorProto_ExtensionRange {
+		return &descriptorpb.DescriptorProto_ExtensionRange{Start: proto.Int32(s), End: proto.Int32(e), Options: rangeOptions(v, ARange{s, e})}
+	}
 	return []c34Witness{
+		// per-range ExtensionRangeOptions: ranges with options followed by ranges without, different contents side by side
+		// (a range must not inherit its neighbour's options; seeded change C34-2)
+		{"extension-range-options", &descriptorpb.FileDescriptorProto{Name: proto.String("w/xr_options.proto"), Package: proto.String("w"),
+			MessageType: []*descriptorpb.DescriptorProto{
+				{Name: proto.String("M"), ExtensionRange: []*descriptorpb.DescriptorProto_ExtensionRange{
+					xr(100, 200, 0), xr(200, 300, 2), xr(300, 400, 0), xr(400, 500, 3), xr(500, 600, 4), xr(700, 800, 0), xr(800, 900, 1), xr(900, 1000, 0)}},
+				{Name: proto.String("N"), ExtensionRange: []*descriptorpb.DescriptorProto_ExtensionRange{xr(10, 20, 2), xr(20, 30, 0)},
+					NestedType: []*descriptorpb.DescriptorProto{{Name: proto.String("I"), ExtensionRange: []*descriptorpb.DescriptorProto_ExtensionRange{xr(1, 2, 0), xr(5, 6, 4), xr(3, 4, 0)}}}},
+			}}},
 		// editions file that spells a delimited field as TYPE_GROUP without the DELIMITED feature
 		{"editions-type-group", edFile("w/editions_group.proto", nil,
 			&descriptorpb.DescriptorProto{Name: proto.String("M"),
